@@ -68,7 +68,6 @@ package snappy
 //@   option noframe
 //@   modifies heap
 //@   ensures result1 == nil ==> 0 <= result0 && result0 <= len(dst)
-//@   unproved make@"x.input = make([]byte, frame, align(frame, defaultBufferSize))" the xerial frame length comes from the stream and sizes the input buffer (up to 4 GiB); bounding it needs a limit the format does not define
 //@   unproved make@"b := make([]byte, len(x.input), 2*cap(x.input))" for an unframed stream the input buffer doubles for as long as the underlying reader produces data; it is bounded by the stream, not by the code
 //@   ensures x.offset == 0
 //@   loop 0 invariant len(x.input) <= cap(x.input) && cap(x.input) > 0
